@@ -10,12 +10,17 @@ use crate::src::Src;
 pub const PLAIN_KEYS: &[&str] = &[
     "a", "b", "c", "d", "ab", "A", "_", "a1", "é", "☺", "𝄞", "", " ", "a b", "0", "1", "-1", "*", "$", "@", "a.b",
     "length", "/", "~", "~0", "~1", "a/b", "\u{a0}", "\u{2028}", "\u{3000}a", "\u{7f}", "\u{ff21}", "\u{e000}", "\u{1f600}",
+    "\u{e9}\u{e9}/x", "\u{1d11e}/\u{1d11e}",
 ];
 
 /// names that need an escape in at least one quoting style, or in every one
 pub const SPECIAL_KEYS: &[&str] = &[
     "'", "\"", "\\", "a'b", "a\"b", "a\\b", "\n", "\t", "\u{0}", "\u{b}", "\u{1f}", "'a'", "\"a\"", "'\"", "\\n", "\\\\",
     "\r", "\u{8}", "\u{c}",
+    // multi-byte characters in front of a character that needs an escape (byte offset != char offset)
+    "\u{e9}\u{e9}\\x", "\u{263a}\\", "\u{1d11e}'s", "\u{e9}\"\u{e9}", "\u{3000}\n\u{3000}", "\u{1f600}\\\u{1f600}\\",
+    // a quote at the start only
+    "'tis", "\"x", "'\u{e9}",
 ];
 
 #[derive(Clone, Debug)]
@@ -61,6 +66,27 @@ impl GenCfg {
 // ------------------------------------------------------------------------------------------------
 // documents
 
+/// see `gen_scalar`: 2^53, 2^53+2, 2^62 and -2^63 are doubles; i64::MAX rounds to 2^63 and u64::MAX to 2^64,
+/// which no other generated number equals
+pub const BIG_INTS: &[i64] = &[1 << 53, -(1 << 53), (1 << 53) + 2, 1 << 62, i64::MIN, i64::MAX];
+pub const BIG_UINTS: &[u64] = &[(1 << 63) + 2048, u64::MAX - 2047, u64::MAX];
+
+/// the float literal that denotes exactly this integer, if there is one
+pub fn exact_float_lit_i(i: i64) -> Option<NumLit> {
+    if (i as f64) as i128 == i as i128 {
+        Some(num_lit_float(i as f64))
+    } else {
+        None
+    }
+}
+pub fn exact_float_lit_u(u: u64) -> Option<NumLit> {
+    if (u as f64) as u128 == u as u128 {
+        Some(num_lit_float(u as f64))
+    } else {
+        None
+    }
+}
+
 pub fn gen_scalar(src: &mut Src) -> J {
     match src.weighted(&[10, 8, 8, 25, 10, 25, 4]) {
         0 => J::Null,
@@ -69,8 +95,13 @@ pub fn gen_scalar(src: &mut Src) -> J {
         3 => J::Int(*src.pick(&[0, 1, 2, -1, 3, 5, 10, 100])),
         4 => J::Float(*src.pick(&[1.0, 1.5, 0.5, -0.0, 2.0, 0.1, 1e2, -1.5])),
         5 => J::Str(src.pick(&["", "a", "b", "ab", "1", "A", "é", "𝄞", "abc", " "]).to_string()),
-        _ => match src.below(5) {
+        _ => match src.below(7) {
             4 => J::Str(src.pick(&["x", "é", "𝄞"]).repeat(*src.pick(&[64usize, 255, 256, 257, 1000]))),
+            // integers beyond the I-JSON range (a document may hold them; a query literal may not): a
+            // curated set on which conversion to f64 is injective and keeps the order, so that exact
+            // comparison and comparison as doubles agree on every pair that can meet
+            5 => J::Int(*src.pick(BIG_INTS)),
+            6 => J::UInt(*src.pick(BIG_UINTS)),
             0 => J::Int(MAX_SAFE),
             1 => J::Int(-MAX_SAFE),
             2 => J::Float(1e300),
@@ -506,6 +537,9 @@ pub fn lit_of_value(src: &mut Src, v: &J, cfg: &GenCfg) -> Option<Lit> {
     Some(match v {
         J::Null => Lit::Null,
         J::Bool(b) => Lit::Bool(*b),
+        // an integer literal must lie within the I-JSON range; beyond it only a float spelling exists
+        J::Int(i) if i.unsigned_abs() > MAX_SAFE as u64 => Lit::Num(exact_float_lit_i(*i)?),
+        J::UInt(u) => Lit::Num(exact_float_lit_u(*u)?),
         J::Int(i) => {
             if src.chance(1, 4) {
                 // same number, float spelling
